@@ -84,6 +84,21 @@ func (e *Extractor) clone() *Extractor {
 		warnings:     append([]Warning(nil), e.warnings...),
 		ocrClient:    e.ocrClient,
 	}
+	if e.ownsReader {
+		// The base opened the file itself and closes it itself. A derived
+		// extractor must not share that reader: its terminal operation would
+		// close the file under the base and its other derivations. It opens
+		// its own reader on first use instead.
+		newExt.reader = nil
+		newExt.docxReader = nil
+		newExt.odtReader = nil
+		newExt.xlsxReader = nil
+		newExt.pptxReader = nil
+		newExt.htmlReader = nil
+		newExt.epubReader = nil
+		newExt.ownsReader = false
+		newExt.readerOpened = false
+	}
 	return newExt
 }
 
